@@ -614,7 +614,9 @@ func aggTyped[T gogu.Number](fail func(sig, format string, a ...any), s []int, c
 	if got := gogu.SumBy(ts, func(v T) T { return v + v }); got != sum2 {
 		fail("SumBy-typed", "SumBy(%T %v, 2v)=%v want %v", sum, ts, got, sum2)
 	}
-	if len(ts) > 0 {
+	// Mean divides by the length converted to T: a length that T cannot represent (256 elements of
+	// a uint8, 128 of an int8, ...) is outside the domain - the quotient is not defined there.
+	if n := T(len(ts)); len(ts) > 0 && n > 0 && float64(n) == float64(len(ts)) {
 		if got, want := gogu.Mean(ts), sum/T(len(ts)); got != want {
 			fail("Mean-typed", "Mean(%T %v)=%v want %v (sum %v in the element type / %d)", sum, ts, got, want, sum, len(ts))
 		}
